@@ -698,8 +698,13 @@ func ClosureFn(v ssa.Value) *ssa.Function {
 // through free variables of closures that capture it.
 func cellStores(a *ssa.Alloc) []*ssa.Store {
 	var out []*ssa.Store
+	seen := map[ssa.Value]bool{}
 	var visit func(addr ssa.Value)
 	visit = func(addr ssa.Value) {
+		if seen[addr] {
+			return
+		}
+		seen[addr] = true
 		refs := addr.Referrers()
 		if refs == nil {
 			return
@@ -709,6 +714,15 @@ func cellStores(a *ssa.Alloc) []*ssa.Store {
 			case *ssa.Store:
 				if x.Addr == addr {
 					out = append(out, x)
+				}
+			case *ssa.FieldAddr:
+				// stores into a field of a struct-valued cell contribute to the cell's value
+				if x.X == addr {
+					visit(x)
+				}
+			case *ssa.IndexAddr:
+				if x.X == addr {
+					visit(x)
 				}
 			case *ssa.MakeClosure:
 				cf, _ := x.Fn.(*ssa.Function)
@@ -759,7 +773,7 @@ func Through(v ssa.Value) ssa.Value {
 			return v
 		}
 		st := cellStores(c)
-		if len(st) != 1 {
+		if len(st) != 1 || CellOfAddr(st[0].Addr) != c {
 			return v
 		}
 		v = st[0].Val
@@ -804,4 +818,22 @@ func SameSource(x, y ssa.Value) bool {
 		return SameSource(bx, by)
 	}
 	return false
+}
+
+// CellOfAddr resolves an address (Alloc or free variable chain) to its cell;
+// nil for field/element addresses.
+func CellOfAddr(x ssa.Value) *ssa.Alloc {
+	for {
+		switch y := x.(type) {
+		case *ssa.Alloc:
+			return y
+		case *ssa.FreeVar:
+			x = FreeVarBinding(y)
+			if x == nil {
+				return nil
+			}
+		default:
+			return nil
+		}
+	}
 }
